@@ -1,8 +1,22 @@
 """
 C09 — Markdown round trip: same meaning, idempotent, exact on normal form.
 
-Exploration on the implementation: for generated documents (harness/gen_tree.py, restricted to the
-property's domain) and the 652 spec examples, with normalize_whitespace in {False, True}:
+Theorems (lean/Mistletoe/Props/C09.lean; lemmas in Proofs/MdRound.lean, Proofs/MdRoundBlocks.lean) over the parser model
+and the model of markdown_renderer.py (lean/Mistletoe/Model/Markdown.lean), all `_partial` (the fragment is a hypothesis):
+  * `C09_prose_exact_partial` / `_text_partial` / `_markdown`: a document of inert prose paragraphs in the renderer's normal
+    form separated by single empty lines is reproduced byte for byte by MarkdownRenderer(normalize_whitespace=either) for
+    the token lists the working tree installs; `C09_prose_idempotent_partial`, `C09_prose_same_meaning_partial`;
+  * `C09_quoted_prose_exact_partial` / `_markdown`: the same inside k nested block quotes (via C04);
+  * `C09_blocks_exact_partial`, `C09_blocks_roundtrip_markdown`: prose paragraphs, ATX headings and thematic breaks inside k
+    nested block quotes: exact reproduction, idempotence, same document / same HTML / same definitions as the original.
+Units (correspondence of the Markdown renderer MODEL with markdown_renderer.py, byte for byte): `md.render` on all 652 spec
+examples under four option sets, `md.render.gen` on generated documents, `md.render.tree` on parsed trees with perturbed
+attributes (the renderer as a function on trees, beyond what the parser produces); `c09.theorem`: random documents of the
+fragment go to the second driver (lean/PropsMain.lean, op c09.fragment), which evaluates the theorem's hypotheses and writes
+the text; wherever they hold the REAL renderer must reproduce the text byte for byte under both values of
+normalize_whitespace and the real HtmlRenderer output and definitions of the rendered text must equal the original's.
+Exploration on the implementation (everything outside the fragment): for generated documents (harness/gen_tree.py,
+restricted to the property's domain) and the 652 spec examples, with normalize_whitespace in {False, True}:
   (1) HtmlRenderer(md(text)) == HtmlRenderer(text) and the link definitions are identical;
   (2) md(md(text)) == md(text) byte for byte (the renderer's output is its own normal form, and a
       document in normal form is reproduced exactly).
@@ -13,9 +27,10 @@ import common
 import gen_docs
 import gen_tree
 import impl
+import md_units
 
 ID = 'C09'
-LEVEL = 'exploration'
+EXTRA_MODULES = ['Mistletoe.Proofs.MdRound', 'Mistletoe.Proofs.MdRoundBlocks', 'propsdriver']
 RULE = ('documents from the tree generator (every block and inline construct, canonical and non-canonical spellings, nesting '
         'to depth 4; no character references, no escapes in destinations/titles, continuation lines indented < 4) and the 652 '
         'spec examples, x normalize_whitespace in {False, True}. Distinct by (document, option); non-trivial when the '
@@ -23,7 +38,12 @@ RULE = ('documents from the tree generator (every block and inline construct, ca
 TRUSTED = ['meaning is compared as HtmlRenderer output plus Document.footnotes of the two texts']
 ASSUMPTIONS = ['the generated domain excludes the input classes the property records as known findings; on the spec corpus '
                'the failing examples are listed individually in known_findings.json']
-PARTIAL = ['interim level: exploration. The Lean theorems over the Markdown renderer and parser models are the planned upgrade']
+PARTIAL = ['proved for the fragment: inert prose paragraphs, ATX headings `#..# text` and thematic breaks in the renderer\'s normal form, '
+           'separated by single empty lines, inside any number of block quotes, no line limit (exact reproduction, idempotence, same '
+           'meaning). Every other construct of the property (setext headings, code blocks, lists, tables, HTML blocks, link '
+           'definitions, every inline construct other than text and soft breaks) and every document NOT in normal form (clause 1 '
+           'and 2 on arbitrary spellings) is decided by the round-trip exploration on the implementation; the Markdown renderer '
+           'model itself is tied to the code on all of those by the md.render units']
 
 
 def md(text, nw):
@@ -89,8 +109,58 @@ def finding_still_fails(finding):
     return check_witness(finding['witness'])[0]
 
 
+
+FRAG_WORDS = ['alpha', 'beta', 'a_b_c', 'snake_case', '*', 'x * y', '3.14)', 'a | b', 'c#', '1986.', '2)x', 'AT&T', '& co', '[open',
+              'end.', '(see p. 3)', 'é', 'naïve', '“q”', '+1', '-x', '= y', '~', 'a<b', '< 3', 'user@', '$5', '50%', 'x^2', 'v1.2.3', "don't",
+              'say "hi"', 'a;b', 'k=v&w=z', '*foo', '_bar', '日本', 'x_', '#tag', '!', '![', 'R&D']
+
+
+def frag_line(rng, heading=False):
+    words = [rng.choice(FRAG_WORDS) for _ in range(rng.randint(1, 6))]
+    if not words[0][0].isalnum():
+        words.insert(0, rng.choice(['alpha', 'beta', 'Zed']))
+    if heading:
+        words = [w for w in words if '#' not in w] or ['Title']
+    return ' '.join(words)
+
+
+def frag_block(rng):
+    r = rng.random()
+    if r < 0.55:
+        return {'k': 'para', 'lines': [frag_line(rng) + '\n' for _ in range(rng.randint(1, 3))]}
+    if r < 0.8:
+        return {'k': 'heading', 'level': rng.randint(1, 6), 'text': frag_line(rng, heading=True)}
+    return {'k': 'hr', 'c': rng.choice('*-_')}
+
+
 def units(ctx):
-    pass
+    import gen_docs as gd
+    spec = [e['markdown'] for e in gd.spec_examples()]
+    md_units.run(ctx, spec, unit='md.render', every_opt=True)
+    texts = [gen(ctx.seed * 7919 + i)[1] for i in range(ctx.budget(1500, 15000))]
+    md_units.run(ctx, texts, unit='md.render.gen')
+    md_units.run_trees(ctx, texts[:ctx.budget(600, 6000)] + spec, ctx.rng('trees'))
+    # the theorem against the implementation
+    rng = ctx.rng('fragment')
+    docs = [{'op': 'c09.fragment', 'blocks': [frag_block(rng) for _ in range(rng.randint(1, 5))], 'depth': rng.choice([0, 0, 1, 1, 2, 3])}
+            for _ in range(ctx.budget(1500, 15000))]
+    res = common.driver_batch(docs, binary=common.PROPS_DRIVER)
+    n_ok = 0
+    for i, (d, r) in enumerate(zip(docs, res)):
+        if not (isinstance(r, dict) and r.get('ok')):
+            continue
+        n_ok += 1
+        text = r['text']
+        nw = bool(i % 2)
+        try:
+            out = md(text, nw)
+            real = {'md': out, 'same_meaning': meaning(out) == meaning(text)}
+        except Exception as e:
+            real = {'raises': type(e).__name__}
+        ctx.compare('c09.theorem', {'text': text, 'normalize_whitespace': nw}, {'md': text, 'same_meaning': True}, real,
+                    kind='depth%d' % d['depth'])
+    ctx.notes.append('of %d generated documents of the fragment %d satisfy the hypotheses of C09_blocks_roundtrip_markdown' % (len(docs), n_ok))
+
 
 
 def explore(ctx, seeds):
